@@ -15,7 +15,7 @@ FUNCTIONS = ['functions:bytes_to_int', 'functions:int_to_bytes', 'functions:uint
 
 BOUNDS = {
     'quick': {'integer_bytes': 24, 'decoder_bytes': 24, 'arith_operand_bytes': 8,
-              'mult': 'two symbolic operands of <= 2 bytes each; symbolic (<= 8 bytes) x constants'},
+              'mult': 'two symbolic operands of 2 x 1 bytes; symbolic (<= 8 bytes) x constants'},
     'thorough': {'integer_bytes': 160, 'decoder_bytes': 160, 'arith_operand_bytes': 24,
                  'mult': 'two symbolic operands of <= 2 bytes each; symbolic (<= 24 bytes) x constants'},
 }
@@ -397,7 +397,8 @@ def _params_arith(tier):
     out = []
     for op in ARITH:
         if op == 'OP_MULT_INTS':
-            ss = [(1, 1), (2, 1), (2, 2)]
+            # symbolic x symbolic products are non-linear: 2x2 bytes needs minutes and is kept for the thorough tier
+            ss = [(1, 1), (2, 1)] if tier == 'quick' else [(1, 1), (2, 1), (2, 2)]
             for ka in ((4, 8) if tier == 'quick' else (4, 8, 16, 24)):
                 for const in (3, -7, 255, 2 ** 31 - 1, -(2 ** 31)):
                     out.append({'op': op, 'ka': ka, 'kb': 5, 'bconst': const})
